@@ -128,7 +128,7 @@ export async function check(group, records) {
 
 export function meta({ tier }) {
   return {
-    rule: `G-TYPES: random prop maps (1-6 props; identifier, camelCase, quoted, hyphenated, numeric, $ and _ keys; property / method / getter members; optional flags) encoded by recursively partitioning and wrapping (depth <= 3) with: inline literal, alias, alias chain, interface, merged interface declarations, extends (one and two bases), intersection, parentheses, export, Partial/Required (flags adjusted), Pick/Omit with padding members (keys as literal, alias of union, alias of alias), indexed access into a wrapper type/interface; declarations before / after / around the call; optionally inside a function scope shadowing outer same-named types; arrow / function / destructured setup parameter. The encoder tracks the denoted map, so the expected keys and required flags are exact. Plus ${UNRESOLVABLE.length} x 2 unresolvable types (imported, undeclared, mapped, keyof, typeof, conditional, Readonly/Record, namespace member, index selecting nothing) that must end with an error diagnostic. ${tier === 'quick' ? 15000 : 400000} maps. distinct_nontrivial = distinct (operator set, size, order, scope, setup form, member kinds).`,
+    rule: `G-TYPES: random prop maps (1-6 props; identifier, camelCase, quoted, hyphenated, numeric, $ and _ keys; property / method / getter members; optional flags) encoded by recursively partitioning and wrapping (depth <= 3) with: inline literal, alias, alias chain, interface, merged interface declarations, extends (one and two bases), intersection, parentheses, export, Partial/Required (flags adjusted), Pick/Omit with padding members (keys as literal, alias of union, alias of alias), indexed access into a wrapper type/interface; declarations before / after / around the call; optionally inside a function scope shadowing outer same-named types; arrow / function / destructured setup parameter. The encoder tracks the denoted map, so the expected keys and required flags are exact. Plus ${UNRESOLVABLE.length} x 2 unresolvable types (imported, undeclared, mapped, keyof, typeof, conditional, Readonly/Record, namespace member, index selecting nothing) that must end with an error diagnostic. ${tier === 'quick' ? 15000 : 400000} maps. Plus scoped families: same-named interfaces / aliases (direct, as extends base, through an alias) declared at module level and inside one or two factory functions, 2-3 components per module, both orders: every component must get the props of the type visible in its own scope. distinct_nontrivial = distinct (operator set, size, order, scope, setup form, member kinds).`,
     assumptions: ['partitions are disjoint (duplicate keys across intersection members / merged interfaces are not generated)', 'generic aliases with parameters, keyof/typeof/conditional/mapped types are outside the quantifier except as unresolvable inputs'],
   };
 }
